@@ -47,7 +47,7 @@ Clause(e) ==
       atEnd == D /\ b.pc = e.vec                       \* the scripted instruction ran, then the interrupt was taken
       retiRan == e.kind = "RETI" /\ execd /\ ~atStart
       top == IF saved # <<>> THEN saved[Len(saved)] ELSE [pc |-> 0, f |-> 0, imr |-> 0, s |-> 0, src |-> -1, isr |-> 0]
-      sAtDelivery == IF atEnd /\ e.kind = "RETI" THEN a.s + 5 ELSE a.s
+      sAtDelivery == IF atEnd /\ e.kind = "RETI" /\ execd THEN a.s + 5 ELSE a.s   \* (a halted CPU does not execute the scripted RETI)
       resume == IF atStart \/ ~execd THEN a.pc ELSE IF e.kind = "RETI" THEN top.pc ELSE a.pc + e.len
   IN IF D /\ ~(Bit(fr[1], 7) = 1 /\ And4(fr[1], b.isr) # 0) THEN "DeliverOnlyIfEnabled"
      \* ... and the source it is reported for is one of the enabled pending ones
@@ -84,7 +84,7 @@ TNext ==
               execd == b.instr > a.instr
               retiRan == e.kind = "RETI" /\ execd /\ ~atStart
               s1 == IF retiRan /\ saved # <<>> THEN SubSeq(saved, 1, Len(saved) - 1) ELSE saved
-              sAtDelivery == IF D /\ ~atStart /\ e.kind = "RETI" THEN a.s + 5 ELSE a.s
+              sAtDelivery == IF D /\ ~atStart /\ e.kind = "RETI" /\ execd THEN a.s + 5 ELSE a.s
               top == IF saved # <<>> THEN saved[Len(saved)] ELSE [pc |-> 0, f |-> 0, imr |-> 0, s |-> 0, src |-> -1, isr |-> 0]
               lost == Dropped(a, b) \ (ClrMask(e) \cup (IF retiRan /\ saved # <<>> THEN {top.src} ELSE {}))
               why == IF c = "StatusNotLost" THEN LostShape(lost, retiRan /\ saved # <<>>, top)
